@@ -15,6 +15,7 @@ import (
 type v15Queryer struct {
 	answer    map[string]interface{}
 	noDepEnum func() // called when the query does not ask for deprecated enum values
+	noDepFld  func() // called when the query does not ask for deprecated fields
 }
 
 func (q *v15Queryer) URL() string { return "u" }
@@ -25,6 +26,9 @@ func (q *v15Queryer) Query(in []*requests.Request) ([]map[string]interface{}, er
 	// a spec-compliant responder evaluates the query: deprecated enum values are only listed on request
 	if len(in) == 1 && !strings.Contains(in[0].Query, "enumValues(includeDeprecated: true)") && q.noDepEnum != nil {
 		q.noDepEnum()
+	}
+	if len(in) == 1 && !strings.Contains(in[0].Query, "fields(includeDeprecated: true)") && q.noDepFld != nil {
+		q.noDepFld()
 	}
 	return []map[string]interface{}{q.answer}, nil
 }
@@ -207,6 +211,12 @@ func VerifIntrospect() {
 		schema["mutationType"] = map[string]interface{}{"name": "Mutation"}
 	}
 	qr := &v15Queryer{answer: map[string]interface{}{"__schema": schema}}
+	qr.noDepFld = func() {
+		if deprecated {
+			// the deprecated field f of O is only listed on request
+			o["fields"] = o["fields"].([]interface{})[1:]
+		}
+	}
 	qr.noDepEnum = func() {
 		if deprecated {
 			e["enumValues"] = e["enumValues"].([]interface{})[:1]
